@@ -230,6 +230,7 @@ pub fn run_shard(spec: &CheckSpec, fam_name: &str, tier: &str, seed: u64, shard:
     let gctx = GenCtx { tier_thorough: tier == "thorough", avail: &GEN_LEVELS };
     let Some(fam) = spec.families.iter().find(|f| f.name == fam_name) else { return 2 };
     crate::guard::install_fatal_handlers(Some(&format!("{stopfile}.crash.{shard}")));
+    crate::guard::start_watchdog(if tier == "thorough" { 600 } else { 240 });
     let mut res = ShardResult { digests: vec![], agg: Agg::default(), found: None, harness: None, samples: vec![] };
     let fam2 = fam.clone();
     // big stack: copy_wide has a 64 KiB frame and single-task plans run on this thread
@@ -410,12 +411,12 @@ pub fn run_check(spec: &CheckSpec, cfg: &RunCfg) -> i32 {
                         found.lock().unwrap().push(f);
                     }
                 }
-                (None, Some(code)) if code == crate::guard::EXIT_MEMFAULT => {
+                (None, Some(code)) if code == crate::guard::EXIT_MEMFAULT || code == crate::guard::EXIT_HANG => {
                     // native code faulted: the shard's signal handler left a crash record
                     let mut rec = String::new();
                     for k in 0..cfg.jobs {
                         if let Ok(t) = std::fs::read_to_string(format!("{}.crash.{}", stopfile.display(), k)) {
-                            if t.contains("MEMFAULT") {
+                            if t.contains("MEMFAULT") || t.contains("HANG") {
                                 rec = t;
                                 break;
                             }
@@ -426,7 +427,8 @@ pub fn run_check(spec: &CheckSpec, cfg: &RunCfg) -> i32 {
                     let plan = (fam.gen)(cfg.seed, i, &gctx);
                     let (ti, oi) = (num("task=") as usize, num("op=") as usize);
                     let kind = plan.tasks.get(ti).and_then(|t| t.ops.get(oi)).map_or("", |o| o.kind()).to_string();
-                    let v = Violation { property: spec.prop.into(), class: "memory-fault".into(), task: ti, op: oi, op_kind: kind, detail: rec.trim().to_string() };
+                    let class = if code == crate::guard::EXIT_HANG { "hang" } else { "memory-fault" };
+                    let v = Violation { property: spec.prop.into(), class: class.into(), task: ti, op: oi, op_kind: kind, detail: rec.trim().to_string() };
                     found.lock().unwrap().push(Found { fam: fi, i, plan, violation: v, recorded: vec![], levels: vec![] });
                 }
                 (None, code) => {
@@ -487,7 +489,7 @@ pub fn run_check(spec: &CheckSpec, cfg: &RunCfg) -> i32 {
         };
         // plans with guard-placed buffers are always judged in child processes: a violation there may well
         // end in a fatal signal, which must not take the coordinating process down
-        let is_memfault = f.violation.class == "memory-fault" || f.plan.cfg.guard_alloc;
+        let is_memfault = f.violation.class == "memory-fault" || f.violation.class == "hang" || f.plan.cfg.guard_alloc;
         let mk = |plan: &Plan, v: &Violation, prelude: Vec<Plan>, levels: Vec<Level>, trace: u64| ReplayFile {
             property: spec.prop.to_string(),
             engine: engine.to_string(),
@@ -729,10 +731,17 @@ pub fn replay(path: &str, quiet: bool) -> i32 {
             return 2;
         }
     };
-    if (rf.violation.class == "memory-fault" || rf.plan.cfg.guard_alloc) && std::env::var_os("B3SIM_REPLAY_INNER").is_none() {
+    if (rf.violation.class == "memory-fault" || rf.violation.class == "hang" || rf.plan.cfg.guard_alloc) && std::env::var_os("B3SIM_REPLAY_INNER").is_none() {
         // the replay is expected to die with a fatal signal: run it in a child and report what happened
         let st = std::process::Command::new(std::env::current_exe().unwrap()).arg("replay").arg(path).arg("--quiet").env("B3SIM_REPLAY_INNER", "1").status();
         return match st {
+            Ok(s) if s.code() == Some(crate::guard::EXIT_HANG) && rf.violation.class == "hang" => {
+                if !quiet {
+                    println!("replayed: the recorded operation did not return again");
+                    println!("VIOLATION property={} replay={}", rf.property, path);
+                }
+                1
+            }
             Ok(s) if s.code() == Some(crate::guard::EXIT_MEMFAULT) => {
                 if !quiet {
                     println!("replayed: native code faulted again (fatal signal while executing the recorded operation)");
@@ -762,6 +771,9 @@ pub fn replay(path: &str, quiet: bool) -> i32 {
         };
     }
     crate::guard::install_fatal_handlers(None);
+    if rf.violation.class == "hang" {
+        crate::guard::start_watchdog(60);
+    }
     let avail = exec::available_levels();
     // history first: runs whose only role is the state they leave behind in the process
     for p in &rf.prelude {
